@@ -77,7 +77,8 @@ theorem threadAll_last (e : Expr) (vIn vStep : String) (x : ℝ) (ss : List ℝ)
     rw [ht] at this ⊢
     rw [List.getLast?_cons_cons]; exact this
 
-/-- areas handed along a chain of units: each unit is (incoming area, outgoing area) -/
+/-- areas handed along a chain of units: each unit is (incoming area, outgoing area); the first unit's incoming area is
+    `a`, every next unit's incoming area is its predecessor's outgoing area -/
 def AreaChain : ℝ → List (ℝ × ℝ) → Prop
   | _, [] => True
   | a, u :: us => u.1 = a ∧ AreaChain u.2 us
